@@ -213,6 +213,24 @@ def run(tier, seed, replay=None):
     for it in range(reps):
         # two curves, possibly incompatible
         a, b = gen(1), gen(1)
+        if rng.random() < 0.35:
+            # the same order, the same break points and the same number of control points, but the repeated knot sits at a
+            # different break point in the two curves (bases that differ only in WHERE the multiplicities are)
+            p_ = rng.choice([3, 4])
+            nb_ = rng.randint(3, 5)
+            i1_, i2_ = rng.sample(range(1, nb_), 2)
+            for sp_, im_ in ((a, i1_), (b, i2_)):
+                kn_ = [Fr(0)] * p_
+                for j_ in range(1, nb_):
+                    kn_ += [Fr(j_)] * (2 if j_ == im_ else 1)
+                kn_ += [Fr(nb_)] * p_
+                sp_['bases'] = [dict(order=p_, knots=kn_, periodic=-1, kind='open')]
+                ncp_ = len(kn_) - p_
+                ncomp_ = len(sp_['cps'][0])
+                sp_['cps'] = [[Fr(rng.randint(-16, 16), 2) if c_ < sp_['dim'] else Fr(rng.choice([1, 2, 3]), 2) for c_ in range(ncomp_)] for _ in range(ncp_)]
+                if sp_['rational']:
+                    sp_['cps'] = [[x_ * pt_[-1] for x_ in pt_[:-1]] + [pt_[-1]] for pt_ in sp_['cps']]
+                sp_['ctor'] = 'raw'
         ca, cb = O.make_impl(a), O.make_impl(b)
         args = dict(curves=[O.spec_json(a), O.spec_json(b)])
         nontriv.add(C.case_hash(args))
